@@ -50,6 +50,14 @@ def cases(prop, shard, nshards, seed, tier, want_models=False):
         for fn in ("tests/4gqj-assembly1.cif", "tests/4WTI_1_T-P.cif", "tests/1DFU_1_M-N.cif", "tests/184D.cif", "tests/1JJP.cif"):
             if mine():
                 yield {"family": "hostile-auth-collide", "file": fn, "ops": [{"op": "auth-collide"}]}
+    # through the real reader: the text of a structure in which a few residues have a nearly superposed second copy
+    # (a disorder deposited as two chains, as B/D of 488d.pdb) with equal or unequal occupancies - what the reader
+    # keeps of the two copies is what gets annotated
+    for t in range(6 if tier == "quick" else 60):
+        if mine():
+            yield {"family": "through-reader-superposed-copies", "file": SMALL[t % len(SMALL)], "t": t, "ops": []}
+    if mine():
+        yield {"family": "through-reader-superposed-copies", "file": "tests/488d.pdb", "t": "as-deposited-with-equal-occupancies", "ops": []}
     nvar = 200 if tier == "quick" else 4000
     for i in range(nvar):
         if not mine():
@@ -136,6 +144,58 @@ def translated(seed, prop, case):
         yield {"file": fn, "i": i, "vec": vec}, gen3d.translated_copy(s, i, vec)
 
 
+def superposed_text(seed, prop, case):
+    """Structure3D read by the real reader from text in which some residues have a nearly superposed copy."""
+    from vmon import emit
+
+    desc = {"file": case["file"], "through-reader": True, "t": case["t"]}
+    if not isinstance(case["t"], int):
+        # 488d.pdb as deposited (chains B and D are two copies of one strand, 0.40/0.60), both copies given 0.50
+        lines = []
+        for line in open(os.path.join(core.REPO, case["file"])).read().splitlines():
+            if line.startswith(("ATOM", "HETATM")) and line[54:60].strip() in ("0.40", "0.60"):
+                line = line[:54] + "  0.50" + line[60:]
+            lines.append(line)
+        try:
+            return emit.read_text("\n".join(lines) + "\n", ".pdb"), desc
+        except Exception as e:
+            desc["reader-exception"] = repr(e)[:200]
+            return None, desc
+    rng = random.Random(f"{seed}:{prop}:sup:{case['t']}")
+    rows = emit.rows_from_structure(gen3d.load(case["file"], 1))
+    keys = []
+    for r in rows:
+        k = (r["chain"], r["resseq"], r["icode"])
+        if k not in keys:
+            keys.append(k)
+    used = {r["chain"] for r in rows}
+    # every source chain gets a copy chain of its own (two chains may number their residues alike)
+    free = [c for c in "ZYXWVUzyxwvu98765432" if c not in used]
+    if len(free) < len(used) or not emit.fits_pdb(rows):
+        return None, desc
+    copy_chain = dict(zip(sorted(used), free))
+    new_chain = "".join(copy_chain[c] for c in sorted(used))
+    chosen = set(rng.sample(keys, max(1, min(len(keys), rng.choice([1, 2, 3, len(keys) // 4 + 1])))))
+    occ = rng.choice([(0.5, 0.5), (0.5, 0.5), (0.4, 0.6), (0.6, 0.4), (1.0, 1.0)])
+    step = rng.choice([0.05, 0.15, 0.25])
+    vec = [rng.choice([-1, 1]) * step for _ in range(3)]  # |vec| = 0.09 / 0.26 / 0.43 A: below the reader's 0.5 A
+    copies = []
+    for r in rows:
+        if (r["chain"], r["resseq"], r["icode"]) in chosen:
+            r["occ"] = occ[0]
+            copies.append(dict(r, chain=copy_chain[r["chain"]], occ=occ[1], x=round(r["x"] + vec[0], 3), y=round(r["y"] + vec[1], 3), z=round(r["z"] + vec[2], 3)))
+    rows = (copies + rows) if rng.random() < 0.5 else (rows + copies)
+    for i, r in enumerate(rows, 1):
+        r["serial"] = i
+    fmt = rng.choice([".pdb", ".cif"])
+    desc.update({"copies-of": sorted(map(str, chosen))[:6], "copy-chains": new_chain, "occupancies": occ, "shift": vec, "format": fmt})
+    try:
+        return emit.read_text(emit.emit_pdb(rows) if fmt == ".pdb" else emit.emit_cif(rows), fmt), desc
+    except Exception as e:
+        desc["reader-exception"] = repr(e)[:200]
+        return None, desc
+
+
 def run_case(prop, case, rec, call):
     """call(structure, model) drives the real code."""
     seed = os.environ.get("VERIF_SEED", "0")
@@ -164,6 +224,14 @@ def run_case(prop, case, rec, call):
         s = tertiary.Structure3D(res)
         mon3d._cur["ctx"] = {"file": case["file"], "all-models-in-one-structure": True, "models-numbered-from": base, "model": case["model"]}
         n = call(s, case["model"])
+        rec.mark_nontrivial(n > 0)
+        return
+    if fam == "through-reader-superposed-copies":
+        s, desc = superposed_text(seed, prop, case)
+        mon3d._cur["ctx"] = desc
+        if s is None:
+            return
+        n = call(s, None)
         rec.mark_nontrivial(n > 0)
         return
     model = case.get("model")
